@@ -129,7 +129,7 @@ def judge(events, outs):
                 k = "fitcls|" + "|".join([fam, f["profile"], out["rid"], out["data_digest"], str(f["ignore"])])
                 key_check("C03", k, cls, ev, lambda first, fl=fl, refit=refit: f"C03/{fl}/fit/outcome-differs{refit}")
 
-        elif kind == "PREDICT":
+        elif kind in ("PREDICT", "PREDICT_GRID"):
             f = out["facts"]
             fam = f["fam"]
             fl = flabel(fam, f["profile"])
